@@ -382,6 +382,21 @@ async def drain_fake(wrapper, counter=[0]):
     return items
 
 
+async def settle_real(wrapper):
+    """Real inotify, after a batch of operations: everything is translated, INCLUDING the IGNORED events that
+    `Inotify.rm_watch` makes the kernel queue while change_loop handles the batch (they land behind the first
+    sentinel, in front of the second)."""
+    items = await drain_real(wrapper)
+    items += await drain_real(wrapper)
+    return items
+
+
+def kernel_labels(wrapper):
+    """Labels (Watch.path) of the watches the inotify instance holds."""
+    ino = getattr(wrapper.inotify, "real", wrapper.inotify)
+    return sorted(str(w.path) for w in ino._watches.values())
+
+
 def watches_dump(wrapper):
     return {str(k): (v is not None) for k, v in sorted(wrapper.watches.items())}
 
